@@ -30,11 +30,11 @@ def cases(ctx):
         for w in WORDS + words(rng, ctx.n(40, 2000)):
             for i in ([5, 6, 7, 8, 9, 10, 11, 12, 13, 14, 15] if w not in WORDS else range(0, 33)):
                 x = unmask(rng, w)
-                yield Case(f'rmd_rol {x} {i}', 'ms', nontrivial=True, tag='rmd-rol')
+                yield Case(f'rmd_rol {x} {i}', 'gms', nontrivial=True, tag='rmd-rol')
     if have['fi']:
         for _ in range(ctx.n(150, 5000)):
             x, y, z = (unmask(rng, w) for w in words(rng, 3))
-            yield Case(f'rmd_fi {x} {y} {z} {rng.randrange(5)}', 'ms', nontrivial=True, tag='rmd-fi')
+            yield Case(f'rmd_fi {x} {y} {z} {rng.randrange(5)}', 'gms', nontrivial=True, tag='rmd-fi')
     if have['compress']:
         for k in range(ctx.n(120, 4000)):
             h = words(rng, 5)
